@@ -74,6 +74,7 @@ type bprover struct {
 	diseqMemo map[*ssa.BasicBlock][]lin
 	extra    map[*ssa.BasicBlock][]lin
 	extraDone map[ssa.Value]bool
+	noWrap   bool // treat + - * as exact (used where values are bounded by a slice length by construction)
 }
 
 func (c *Ctx) newProver(fn *ssa.Function, posts map[*ssa.Function]bool) *bprover {
@@ -277,6 +278,9 @@ func (p *bprover) lin(v ssa.Value, at ssa.Instruction, depth int) lin {
 
 // inRange: the mathematical value of l is provably inside the range of integer type t (at block `at`).
 func (p *bprover) inRange(l lin, t types.Type, at ssa.Instruction) bool {
+	if p.noWrap {
+		return true
+	}
 	bits, signed := p.width(t)
 	if bits == 0 {
 		return false
